@@ -30,3 +30,20 @@ def errorIndices {β : Type} (rs : List (Outcome β)) : List Nat :=
   (List.range rs.length).filter fun i => match rs[i]? with | some .raised => true | _ => false
 
 end Amisc
+
+namespace Amisc
+
+/-- what `call_model` stores for a failed evaluation: the submission index together with the arguments (inputs, model fidelity)
+    of THAT task — `{'inputs': {k: v[i]}, 'index': i, 'model_kwargs': kwargs with model_fidelity[i]}` -/
+def errorRecords {α β : Type} (tasks : List α) (rs : List (Option (Outcome β))) : List (Nat × α) :=
+  (List.range tasks.length).filterMap fun i =>
+    match rs[i]?, tasks[i]? with
+    | some (some Outcome.raised), some t => some (i, t)
+    | _, _ => none
+
+/-- the parallel loops of `Component.predict` / `gradient`: per-index results are collected by submission index and combined
+    with the weights in submission order (`none`/raised terms contribute nothing here) -/
+def weightedSum (coeffs : List Int) (rs : List (Option (Outcome Rat))) : Rat :=
+  (List.zipWith (fun (c : Int) r => match r with | some (Outcome.ok v) => (c : Rat) * v | _ => 0) coeffs rs).foldl (· + ·) 0
+
+end Amisc
